@@ -489,7 +489,8 @@ class Ctx(object):
         self.var_kinds = {}
         self.counter = {}
         self.havoc = engine.mode == 'havoc'
-        self.check_div = engine.check_div
+        self.check_div = engine.check_div and engine.domain_checks
+        self.domain_checks = engine.domain_checks
         self.hash_hook = None
         self.outputs = []       # (name, value) recorded by the harness
         self.uf_apps = {}       # lemma library registry
@@ -932,7 +933,7 @@ class ConcreteCtx(object):
 class Engine(object):
     def __init__(self, config_name='', mode='precise', max_depth=600, query_timeout_s=60,
                  final_timeout_s=60, first_timeout_s=4, check_div=True, max_paths=None, margin=1e-6,
-                 square_abs=False, max_concretize=64, validate=200, budget_s=None, dry=False):
+                 square_abs=False, max_concretize=64, validate=200, budget_s=None, dry=False, domain_checks=True):
         self.config_name = config_name
         self.mode = mode
         self.max_depth = max_depth
@@ -947,6 +948,7 @@ class Engine(object):
         self.validate = validate
         self.budget_s = budget_s
         self.dry = dry
+        self.domain_checks = domain_checks
         self.stats = Stats()
         self.work = []
         self.candidates = []
